@@ -1241,7 +1241,7 @@ pub fn replay_t1(v: &serde_json::Value) -> bool {
 pub fn run(ctx: &Ctx) -> Outcome {
     let mut out = Outcome::default();
     let quick = ctx.tier.is_quick();
-    let budget = ctx.tier.budget_s();
+    let budget = ctx.tier.budget_s() * 0.55; // the fractions below add up to 1.55: the X2 part ends at 0.85 of the tier budget, the rest is for the sweep and the T1 half
     let m1 = LifeModel::new(if quick { "life-remember-q" } else { "life-remember-t" }, quick, false);
     let m2 = LifeModel::new(if quick { "life-expire-q" } else { "life-expire-t" }, quick, true);
     // quick: explicit, machine-independent depth (the push model, much smaller, goes to 11)
